@@ -16,6 +16,35 @@ def hx(b):
     return b.hex() if b else "-"
 
 
+def reaches(ins, tid, pred):
+    seen, todo = set(), [tid]
+    while todo:
+        t = todo.pop()
+        if t in seen or t < 0:
+            continue
+        seen.add(t)
+        x = ins[t]
+        if pred(x):
+            return True
+        if x["kind"] == "struct":
+            todo += [f["type"] for f in x["fields"]]
+        elif x["kind"] == "union":
+            todo += list(x.get("variants") or [])
+        elif x["kind"] in ("array", "dict"):
+            todo.append(x["elem"]["type"])
+    return False
+
+
+def tl2_sig(u, name, g, i):
+    """stable signature of a TL2 disagreement, by the schema feature the type reaches"""
+    tid = next((x["id"] for x in u.ins if x.get("tlName") == name and x.get("topLevel") and not x.get("natParams")), None)
+    if tid is not None and reaches(u.ins, tid, lambda x: x["kind"] == "struct" and any(f.get("isBit") for f in x["fields"])):
+        return f"C12:F18:tl2-true-typed-field-under-mask:{name}"        # `x:fm.b?true`: generated = mask bit only, interpreter = bit + object
+    if g.startswith("ok") and i.startswith("ok") and tid is not None and reaches(u.ins, tid, lambda x: x["kind"] in ("array", "dict")):
+        return f"C12:F19:tl2-written-bytes-differ:{name}"         # both accept, the TL2 bytes written differ
+    return f"C12:tl2:{u.name}:{name}"
+
+
 def run(ctx):
     quick = ctx.quick()
     with Lock():
@@ -114,23 +143,25 @@ def run(ctx):
                 name = l.split(" ")[1]
                 valid.append((str(tid_of[name]), name, "1", o[3:], "valid-go-random-value"))
                 s_["go_fillrandom_values"] += 1
-        # ---- mutated TL1 inputs; those on which the length-sanity check decides are not given to the interpreter:
-        #      it allocates `count` values before reading a single element (resize), so a 4-byte count costs gigabytes
-        cand = []
+        # ---- mutated TL1 inputs.  The interpreter allocates `count` values before reading a single element (resize) and the
+        #      sanity-free readers loop `count` times over zero-size elements, so a mutated 4-byte count costs gigabytes / minutes.
+        #      Safe inputs: truncations of valid encodings (counts unchanged), and mutations on which the strict model (san = 1)
+        #      does not answer eof (every count read then passed count*4 <= remaining length)
+        cand, mutated = [], []
         for tid, name, boxed, h, k in valid:
             if rng.random() < nmut / max(1, nvals):
                 b = b"" if h == "-" else bytes.fromhex(h)
-                cand.append((tid, name, boxed, hx(mutate_bytes(rng, b, tags)), "mutated"))
+                if rng.random() < 0.4:
+                    mutated.append((tid, name, boxed, hx(b[:rng.randrange(len(b) + 1)]), "truncated"))
+                else:
+                    cand.append((tid, name, boxed, hx(mutate_bytes(rng, b, tags)), "mutated"))
         c1 = [f"rw1 1 {tid} {name} {boxed} {h}" for tid, name, boxed, h, k in cand]
-        c0 = [f"rw1 0 {tid} {name} {boxed} {h}" for tid, name, boxed, h, k in cand]
         m1 = run_lines(ref, [str(u.ir_path)], c1)[1] if cand else []
-        m0 = run_lines(ref, [str(u.ir_path)], c0)[1] if cand else []
-        mutated = []
-        for c, a, b_ in zip(cand, m1, m0):
-            if a == b_:
-                mutated.append(c)
-            else:
+        for c, a in zip(cand, m1):
+            if a.startswith("eof"):
                 s_["tl1_mutated_skipped_sanity_dependent"] += 1
+            else:
+                mutated.append(c)
         inputs = valid + mutated
         lines = [f"rw1 {san} {tid} {name} {boxed} {h}" for tid, name, boxed, h, k in inputs]
         lines0 = [f"rw1 0 {tid} {name} {boxed} {h}" for tid, name, boxed, h, k in inputs]
@@ -163,6 +194,19 @@ def run(ctx):
             cl = [f"oconv2 {name} {h}" for tid, name, boxed, h, k in valid if boxed == "1" and info.get(name, [""] * 5)[4] == "true"]
             cl = cl[:max(40, len(cl) // 2)]
             co = run_lines_resilient(u.gen.exe, [], cl, timeout=600)
+            # the same value written as TL2 by both: generated TL1 -> object -> TL2 vs interpreter TL1 -> value -> TL2
+            ci, _ = obj_lib.run_otf(otf, oscr, load, ["c12 " + l.split(" ", 1)[1] for l in cl])
+            if ci is None or len(ci) != len(cl):
+                uerr.append((u.name, f"TL2 conversion on the interpreter failed: {len(ci or [])} of {len(cl)}"))
+            else:
+                for l, g, i in zip(cl, co, ci):
+                    name = l.split(" ")[1]
+                    s_["tl2_value_written_by_both"] = s_.get("tl2_value_written_by_both", 0) + 1
+                    if g == i:
+                        s_["tl2_value_written_equal"] = s_.get("tl2_value_written_equal", 0) + 1
+                    elif g.startswith("ok"):
+                        ubad.append((u.name, l, f"generated={trunc(g, 80)} interpreter={trunc(i, 80)}",
+                                     tl2_sig(u, name, g, i), "TL2 bytes written for the same value differ"))
             t2 = []
             for l, o in zip(cl, co):
                 if o.startswith("ok "):
@@ -185,7 +229,7 @@ def run(ctx):
                         s_["tl2_two_way_equal"] += 1
                     else:
                         ubad.append((u.name, l, f"generated={trunc(g, 80)} interpreter={trunc(i, 80)}",
-                                     f"C12:tl2:{u.name}:{name}", f"TL2 ({k}): generated code and interpreter differ"))
+                                     tl2_sig(u, name, g, i), f"TL2 ({k}): generated code and interpreter differ"))
         with lock:
             for k in s_:
                 stats[k] = stats.get(k, 0) + s_[k]
